@@ -1968,8 +1968,19 @@ func R59() Rule {
 							if core.Resolve(st.Val) != ssa.Value(elem) {
 								continue
 							}
-							for _, ci := range core.AllCalls(cb) {
-								if ci.Method != nil && ci.Method.Name() == "Send" && core.InstrReaches(ci.Instr, st) {
+							// (the send may sit in a helper or closure of its own: `send(resp)` that gives the lock up around stream.Send)
+							var sendSites []ssa.Instruction
+							for _, sf := range P.Scope(fn, func(f *ssa.Function) bool { return core.PkgPathOf(f) != core.PkgBttest }) {
+								for _, sci := range core.AllCalls(sf) {
+									if sci.Method != nil && sci.Method.Name() == "Send" {
+										sendSites = append(sendSites, sitesThrough(cb, sci.Instr, false, map[*ssa.Function]bool{}, 0)...)
+									}
+								}
+							}
+							reported := false
+							for _, site := range sendSites {
+								if !reported && core.InstrReaches(site, st) {
+									reported = true
 									c.Bad("R59", fmt.Sprintf("d/%s/%s-not-a-row-already-sent", core.FuncName(cb), cell.Comment), st.Pos(), "a row whose key was just sent is remembered in %q for the trailing response: when the sampler picks the table's final row its key is sent twice", cell.Comment)
 								}
 							}
